@@ -1,10 +1,13 @@
 #!/bin/bash
-# try_mutant.sh <PROP> <patch.diff> [tier] : apply a change to /repo, run the property's check, undo the change.
-P=$1; PATCH=$2; TIER=${3:-quick}
-cd /repo || exit 2
-if [ -n "$(git status --porcelain --untracked-files=no)" ]; then echo "repo not clean"; exit 2; fi
+# try_mutant.sh <PROP> <patch.diff> [tier] : run the property's check against a scratch worktree of /repo with the
+# change applied (VERIF_REPO override; /repo itself is not touched, so background runs against /repo are not disturbed).
+# Equivalent to: git -C /repo apply <patch> ; ./check <PROP> ; git -C /repo checkout -- .
+P=$1; PATCH=$(readlink -f "$2"); TIER=${3:-quick}
+E=/tmp/evalrepo
+[ -d $E ] || git -C /repo worktree add -q --detach $E HEAD
+cd $E && git checkout -q --detach $(git -C /repo rev-parse HEAD) && git checkout -q -- . && git clean -qfd src
 git apply "$PATCH" || { echo "patch does not apply"; exit 2; }
-cd /verif && ./check $P --tier $TIER > /tmp/try_mutant.out 2> /tmp/try_mutant.err; RC=$?
-git -C /repo checkout -- .
-echo "check $P exit=$RC"; grep -E "^VIOLATION|^KNOWN" /tmp/try_mutant.out | head -3; grep -E "^violation|HARNESS" /tmp/try_mutant.err | head -3
+cd /verif && VERIF_REPO=$E ./check $P --tier $TIER > /tmp/try_mutant.out 2> /tmp/try_mutant.err; RC=$?
+git -C $E checkout -q -- . ; git -C $E clean -qfd src
+echo "check $P exit=$RC"; grep -E "^VIOLATION" /tmp/try_mutant.out | head -3; grep -E "^violation|HARNESS" /tmp/try_mutant.err | head -3
 exit $RC
